@@ -13,7 +13,7 @@ opd   := (p <kind>) | (m <layer>+) | (h <name> <gen> <ni|it|(fw n)|(bi n)> (<HM>
 layer := (L <name> (d <key>*) <src>)       src := - | (own <meta>) | (sh <proto> <meta>|-)
 meta  := (M <tag> (ops (<MetaKeyId> <mv>)*) (named <key>*) <- | (ty <id>) | bad> <0|1 baseBad>)
 mv    := (f <beh>) | nc | (ch (<mid>*) <beh>|-)
-beh   := (r <rv>) | u | t | (c <n>)        rv := null | b0 | b1 | i<n> | str | self | lst | tup | iter | rng | pmap | gen | innernext | inneriter
+beh   := (r <rv>) | u | t | (c <n>)        rv := null | b0 | b1 | i<n> | str | self | lst | tup | iter | rng | pmap | gen | innernext | inneriter | nest:<d>:<lst|int|back>
 Response: `<event>;<event>;… => <result>`, event = `n<tag>.<key> self=<av> args=[<av>,…]`.
 -/
 import KotoVerif.Common.Proto
@@ -56,9 +56,16 @@ def parseRV (s : String) : Option RV :=
   | "iter" => some .iter
   | "rng" => some .rng | "pmap" => some .pmap | "gen" => some .gen
   | "innernext" => some .innerNext | "inneriter" => some .innerIter
-  | s => match s.toList with
-    | 'i' :: rest => (String.ofList rest).toInt?.map RV.int
-    | _ => none
+  | s => match s.splitOn ":" with
+    | ["nest", d, fin] => do
+      let d ← d.toNat?
+      let fin ← (match fin with
+        | "lst" => some NestFin.lst | "int" => some NestFin.int | "back" => some NestFin.back
+        | _ => none)
+      pure (RV.nest d fin)
+    | _ => match s.toList with
+      | 'i' :: rest => (String.ofList rest).toInt?.map RV.int
+      | _ => none
 
 def parseBeh : Sexp → Option Beh
   | .atom "u" => some .unimpl
@@ -150,6 +157,7 @@ def avStr : AV → String
   | .gen => "iter"
   | .pmap => "m:?"
   | .inner nx => if nx then "m:n900" else "m:n901"
+  | .aux i _ _ => s!"m:n{909 + i}"
   | .one v => "(l " ++ avStr v ++ ")"
   | .obj n => s!"m:n{n}"
   | .host n g => s!"h:n{n}#{g}"
@@ -189,6 +197,7 @@ def errStr : Err → String
   | .unexpectedKey => "E:unexpectedkey"
   | .oob => "E:oob"
   | .noIndex => "E:noindex"
+  | .tooNested => "E:toonested"
   | .notReversible => "E:notrev"
   | .display => "E:display"
   | .diverge => "E:diverge"
